@@ -777,3 +777,6 @@ for _n in range(1, 7):
     B("C07", _n)
 for _n in range(1, 7):
     B("C14", _n)
+for _n in range(1, 7):
+    B("C12", _n)
+    MUTANTS.append(dict(prop="C13", name=f"benign-agent:C12-{_n}-under-C13", patch=f"selftest/patches/bn_C12_{_n}.diff", rule=None, benign=True))
